@@ -46,13 +46,13 @@ impl Property for C14 {
     fn cases(&self, tier: Tier) -> u64 {
         match tier {
             Tier::Quick => 12_000,
-            Tier::Thorough => 500_000,
+            Tier::Thorough => 6_000_000,
         }
     }
     fn min_nontrivial(&self, tier: Tier) -> u64 {
         match tier {
             Tier::Quick => 3_000,
-            Tier::Thorough => 100_000,
+            Tier::Thorough => 1_200_000,
         }
     }
     fn rule(&self) -> &'static str {
